@@ -37,6 +37,9 @@ _RULES = {
     "TOKEN-RANGE-SOURCE": rules_units.rule_token_range_source,
     "KEYWORD-BOUNDARY": rules_units.rule_keyword_boundary,
     "SEND-AWAIT": rules_units.rule_send_await,
+    "DOC-IN-RANGE": rules_units.rule_doc_in_range,
+    "CHAR-ESCAPES": rules_units.rule_char_escapes,
+    "INDEX-ELEM": rules_units.rule_index_elem,
 }
 
 _cache = {}
